@@ -1312,7 +1312,16 @@ fn table_to_render_tree<'a, T: Write>(
 ) -> TreeMapResult<'a, HtmlContext, RenderInput, RenderNode> {
     pending(input, move |_, rowset| {
         let mut rows = vec![];
+        // Anything else with content (in practice a <caption>) becomes a
+        // block of its own before the table.
+        let mut captions = vec![];
         for mut bodynode in rowset {
+            if !matches!(bodynode.info, RenderNodeInfo::TableBody(_)) {
+                if !bodynode.is_shallow_empty() {
+                    captions.push(RenderNode::new(RenderNodeInfo::Block(vec![bodynode])));
+                }
+                continue;
+            }
             // The <thead>/<tbody> element is not rendered itself, so its rows
             // take over the colours set on it.
             let _body_style = std::mem::take(&mut bodynode.style);
@@ -1330,13 +1339,19 @@ fn table_to_render_tree<'a, T: Write>(
                 }
             }
         }
-        if rows.is_empty() {
+        let table = if rows.is_empty() {
             None
         } else {
             Some(RenderNode::new_styled(
                 RenderNodeInfo::Table(RenderTable::new(rows)),
                 computed,
             ))
+        };
+        if captions.is_empty() {
+            table
+        } else {
+            captions.extend(table);
+            Some(RenderNode::new(RenderNodeInfo::Container(captions)))
         }
     })
 }
